@@ -317,6 +317,8 @@ type EscCase struct {
 	Cmd     string     `json:"cmd"`
 	Seg     devsim.Seg `json:"seg"`
 	RC      string     `json:"return_char,omitempty"`
+	// TwoLine: the device's prompts and the level patterns span two lines.
+	TwoLine bool `json:"two_line,omitempty"`
 }
 
 // PlatCase is a platform definition whose on-open sequence writes redacted input.
@@ -346,6 +348,7 @@ type Case struct {
 	Plat       *PlatCase     `json:"platform,omitempty"`
 	Sys        *SysCase      `json:"system,omitempty"`
 	Fault      *FaultCase    `json:"fault,omitempty"`
+	Lo         *c10.LoDesc   `json:"telnet_loopback,omitempty"`
 }
 
 func genSeg(r *rand.Rand) devsim.Seg {
@@ -406,6 +409,7 @@ func genCase(r *rand.Rand, i int) Case {
 		e.Op = []string{"acquire", "acquire-config", "sendcommand", "sendconfig"}[r.Intn(4)]
 		e.Cmd = "show " + rs(r, "abcdefghijklmnopqrstuvwxyz", 3+r.Intn(8)) + "!"
 		e.RC = []string{"\n", "\n", "\r", "\r\n"}[r.Intn(4)]
+		e.TwoLine = r.Intn(3) == 0
 		c.Secondary = decorate(r, c.Secondary, e.RC)
 		c.Esc = e
 	case k < 17:
@@ -498,6 +502,29 @@ func privLevels() map[string]*network.PrivilegeLevel {
 }
 
 // escDevice is the CLI device of the escalation and platform workloads. It never echoes hidden input.
+// Two-line prompts (SR Linux / SR OS style): a context line, then the prompt proper. The level
+// patterns span both lines.
+const (
+	execPattern2   = `(?im)^--\{ exec \}--\[ [\w.\-]{1,63} \]--\n[\w.\-@/:]{1,63}>$`
+	privPattern2   = `(?im)^--\{ admin \}--\[ [\w.\-]{1,63} \]--\n[\w.\-@/:]{1,63}#$`
+	configPattern2 = `(?im)^--\{ candidate \}--\[ [\w.\-]{1,63} \]--\n[\w.\-@/:]{1,63}\(config\)#$`
+)
+
+func privLevels2() map[string]*network.PrivilegeLevel {
+	l := privLevels()
+	l["exec"].Pattern, l["privilege-exec"].Pattern, l["configuration"].Pattern = execPattern2, privPattern2, configPattern2
+	return l
+}
+
+// twoLinePrompts switches a device built by escDevice to two-line prompts.
+func twoLinePrompts(dev *devsim.CLI, host string) {
+	dev.Prompts = map[string]string{
+		"exec":   "--{ exec }--[ " + host + " ]--" + dev.NL + host + ">",
+		"priv":   "--{ admin }--[ " + host + " ]--" + dev.NL + host + "#",
+		"config": "--{ candidate }--[ " + host + " ]--" + dev.NL + host + "(config)#",
+	}
+}
+
 func escDevice(host, nl, variant, deviceSecret, cmd string) *devsim.CLI {
 	dev := &devsim.CLI{Prompts: map[string]string{"exec": host + ">", "priv": host + "#", "config": host + "(config)#"}, Mode: "exec", NL: nl}
 	var ask func(left int) *devsim.Ask
@@ -569,13 +596,19 @@ func runEscalate(c *Case, m *Monitor) session {
 		deviceSecret = "device-side-" + c.Secondary[:4] // the library's secret is wrong
 	}
 	dev := escDevice(e.Host, e.NL, e.Variant, deviceSecret, e.Cmd)
+	levels := privLevels()
+	if e.TwoLine {
+		twoLinePrompts(dev, e.Host)
+		levels = privLevels2()
+		s.kind = "escalate2-" + e.Variant + "-" + e.Op
+	}
 	conn := devsim.NewConn(dev, devsim.Config{Seg: e.Seg, KeepData: true})
 	defer conn.Abandon()
 	to := 3 * time.Second
 	if e.Variant == "reasks" || e.Variant == "no-secondary" {
 		to = 400 * time.Millisecond
 	}
-	opts := []util.Option{options.WithCustomTransport(conn), options.WithPrivilegeLevels(privLevels()), options.WithDefaultDesiredPriv("privilege-exec"),
+	opts := []util.Option{options.WithCustomTransport(conn), options.WithPrivilegeLevels(levels), options.WithDefaultDesiredPriv("privilege-exec"),
 		options.WithTimeoutOps(to)}
 	if e.Variant != "no-secondary" {
 		opts = append(opts, options.WithAuthSecondary(c.Secondary))
@@ -788,6 +821,17 @@ func Run(mc mon.Case) mon.Result {
 	case "fault":
 		fr := runFaultCase(&c, m)
 		s, returned = fr.s, fr.returned
+	case "telnet":
+		res, info := c10.RunTelnetLo(*c.Lo, &c10.Hooks{ExtraOpts: m.options(c.Level), Drain: true})
+		s = session{kind: "telnet-transport-" + c.Lo.Discipline, outcome: info.Class, c10Verdict: res.Verdict, c10Key: res.Key, nonSecret: "host '127.0.0.1'"}
+		for _, rec := range info.DeviceLog {
+			if rec.Line != "" && (rec.Line == c.Lo.User || rec.Line == c.Lo.Password) {
+				s.credWrites++
+			}
+		}
+		if res.Verdict == mon.Inconclusive {
+			return res
+		}
 	}
 	m.settle()
 	msgs, chlog := m.snapshot()
@@ -830,6 +874,9 @@ func Run(mc mon.Case) mon.Result {
 	}
 	if len(s.argv) > 0 {
 		obs["child_argv_inspected"] = 1
+	}
+	if c.Esc != nil && c.Esc.TwoLine {
+		obs["escalations_with_two_line_prompts"] = 1
 	}
 	for _, v := range []string{c.Password, c.Passphrase, c.Secondary} {
 		if v == "" {
@@ -925,6 +972,30 @@ func init() {
 				c.Login = &dd
 				cs = append(cs, mon.MkCase(fmt.Sprintf("c11/sweep/%03d", k), c))
 				k++
+			}
+			// escalations with two-line prompts, every device variant
+			k = 0
+			for _, variant := range []string{"grants", "grants", "asks", "rejects", "refuses", "interactive"} {
+				for _, op := range []string{"acquire", "acquire-config", "sendcommand", "sendconfig"} {
+					c := Case{Kind: "escalate", Level: []string{"debug", "info", "critical", "debug"}[k%4], Family: secretFamilies[k%len(secretFamilies)]}
+					c.Secondary = decorate(r, genSecret(r, c.Family), "\n")
+					c.Esc = &EscCase{Host: hosts[k%len(hosts)], Variant: variant, Op: op, NL: []string{"\r\n", "\n"}[k%2], Cmd: "show twoline!", Seg: genSeg(r), RC: "\n", TwoLine: true}
+					cs = append(cs, mon.MkCase(fmt.Sprintf("c11/twoline/%02d", k), c))
+					k++
+				}
+			}
+			// logins through the real telnet transport (loopback TCP device, three line disciplines)
+			nlo := 21
+			if tier == "thorough" {
+				nlo = 210
+			}
+			for i := 0; i < nlo; i++ {
+				lo := c10.GenLo(r, i)
+				c := Case{Kind: "telnet", Level: []string{"debug", "debug", "info", "critical"}[i%4], Family: secretFamilies[i%len(secretFamilies)]}
+				c.Password = decorate(r, genSecret(r, c.Family), "")
+				lo.Password = c.Password
+				c.Lo = &lo
+				cs = append(cs, mon.MkCase(fmt.Sprintf("c11/telnet-transport/%03d", i), c))
 			}
 			cs = append(cs, genFaultCases(r, tier)...)
 			cs = append(cs, genRefusalCases(r)...)
